@@ -29,6 +29,7 @@ META = {
 }
 META["explanation"] += ' Shared clauses: R04.3 (next_now / next_ref_now read the value and mark the version under one guard) and the close / wake group.'
 META["explanation"] += ' R01.6b a function that replaces the state handle of an existing Subscriber (clone_from, mem::replace, assignment) stores the matching observed version on every path.'
+META["explanation"] += ' R01.13 the notify function adds 1 to the version on every path to its return (no "nobody is parked" early return). R01.14 derived state: a field of ObservableState other than value/metadata that some state method computes from the value and another reads (a cached hash, a flag) is rewritten on every path after each mutable access to the value; today there is no such field and the rule reports that.'
 
 STATE = "state::ObservableState::<T>::"
 CALL_CLOSURE = r"(FnOnce|FnMut|Fn)(<.*>>?)?::call(_once|_mut)?$"
@@ -122,12 +123,95 @@ def run(ctx):
     r01_10(ctx)
     r01_11(ctx)
     r01_12(ctx)
+    r01_13(ctx, notify)
+    r01_14(ctx)
     from . import groups, c04
     c04.r04_3(ctx)  # the value handed out and the version marked as observed must come from one guard, else an update is skipped
     groups.eyeball_close_and_wake(ctx)  # a premature or missing close makes next() ready (None) / pending at the wrong time
 
 
 # ---------------------------------------------------------------------------
+
+def r01_13(ctx, notify):
+    """the notify function bumps the version on every path to its return: a path that returns early (e.g. "nobody is parked,
+    nothing to do") leaves the update unannounced - subscribers that are not parked compare versions at their next poll."""
+    for f in notify:
+        b = f.built
+        bumps = sorted({loc[0] for loc, s_ in assigns_to_field(b, "version") if contains(b.expr_of_rv(s_["rv"], 8, ()), lambda x: x[0] == "bin" and x[1].startswith("Add"))})
+        ok = bool(bumps) and b.post_dominated_by(0, bumps)
+        ctx.verdict(ok, "R01.13", f, "bump-on-every-path", b.line_at((bumps[0], 0)) if bumps else f.loc(), "every path of `%s` to its return adds 1 to the version" % f.name,
+                    "`%s` can return without bumping the version: callers have already stored the new value, and a subscriber that is not parked at that moment (never polled, or woken and not yet re-polled) never sees this update" % f.path)
+
+
+def r01_14(ctx):
+    """a state field that caches something derived from the value (a hash, a flag) and is read by a state method must be rewritten
+    after every mutable access to the value, on every path: otherwise a later conditional setter decides on a stale derivation and
+    drops (or duplicates) an update."""
+    F = ctx.facts
+    a = F.adt(EY, "state::ObservableState")
+    if a is None:
+        ctx.missing("R01.14", "state::ObservableState")
+        return
+    caches = [fd["name"] for fd in a["variants"][0]["fields"] if fd["name"] not in ("value", "metadata")]
+    if not caches:
+        ctx.holds("R01.14", None, "no-derived-state", None, "ObservableState holds only the value and the metadata: nothing derived from the value is cached")
+        return
+    sf = [f for f in state_fns(F) if f.built]
+    for c in caches:
+        readers = []
+        for f in sf:
+            b = f.built
+            for loc, s_ in b.iter_stmts():
+                if s_["k"] == "assign" and s_["rv"]["k"] in ("use", "ref", "discr", "cast", "bin") and c in [n_ for pl in _rv_places(s_["rv"]) for n_ in place_fields(pl)]:
+                    readers.append(f)
+                    break
+        if not readers:
+            ctx.holds("R01.14", None, "derived-state:%s" % c, None, "`%s` is never read by a state method" % c)
+            continue
+        derived = False
+        for f in sf:
+            b = f.built
+            for loc, s_ in assigns_to_field(b, c):
+                e = b.expr_of_rv(s_["rv"], 10, ())
+                if mentions_field(e, "value") or contains(e, lambda x: x[0] == "param" and x[1] >= 1 and str(b.locals[x[1]]["ty"]) in ("T", "&T", "&mut T")):
+                    derived = True
+        if not derived:
+            ctx.holds("R01.14", None, "derived-state:%s" % c, None, "no state method computes `%s` from the value" % c)
+            continue
+        # state fns that rewrite the field on every path
+        good = set()
+        changed = True
+        while changed:
+            changed = False
+            for f in sf:
+                if f.key in good:
+                    continue
+                b = f.built
+                blks = {loc[0] for loc, _ in assigns_to_field(b, c)} | {blk for blk, t in b.calls() if F.local_callee(f, t) is not None and F.local_callee(f, t).key in good}
+                if blks and b.post_dominated_by(0, blks):
+                    good.add(f.key)
+                    changed = True
+        for f, sites in value_borrowers(F):
+            b = f.built
+            if f.name == "new":
+                continue
+            blks = {loc[0] for loc, _ in assigns_to_field(b, c)} | {blk for blk, t in b.calls() if F.local_callee(f, t) is not None and F.local_callee(f, t).key in good}
+            for loc in sites[:1]:
+                ok = b.post_dominated_by(loc[0], blks)
+                ctx.verdict(ok, "R01.14", f, "derived-state-refreshed:%s" % c, b.line_at(loc), "every path from the mutable access to the value in `%s` rewrites `%s`" % (f.name, c),
+                            "`%s` gives mutable access to the value and can return without rewriting `%s`, which `%s` reads: the next call decides on a derivation of a value that is no longer stored (an update is dropped or a no-op is announced)" % (f.path, c, readers[0].name))
+
+
+def _rv_places(rv):
+    out = []
+    for k in ("place",):
+        if isinstance(rv.get(k), dict):
+            out.append(rv[k])
+    for o in [rv.get("op"), rv.get("x")] + list(rv.get("ops") or []) + [rv.get("l"), rv.get("r")]:
+        if isinstance(o, dict) and o.get("k") in ("move", "copy"):
+            out.append(o["place"])
+    return out
+
 
 class NotifySet(list):
     """the functions that bump the version (role: notify)."""
@@ -361,11 +445,24 @@ def r01_5(ctx, notify, close, sentinel):
             if s["k"] == "assign" and s["rv"]["k"] == "agg" and s["rv"].get("adt") == "state::ObservableStateMetadata":
                 i = s["rv"]["fields"].index("version")
                 op = s["rv"]["ops"][i]
+                val = None
                 if op["k"] == "const" and op.get("int") is not None:
-                    init = op["int"]
-                    ctx.holds("R01.5", f, "writer=initialiser", b.line_at(loc), "version initialised with constant %d" % init)
+                    val = op["int"]
                 else:
+                    e = strip(b.expr_of_op(op), through_calls=False)
+                    if e[0] == "call" and ecall_matches(e, r"Default>?::default$"):
+                        val = 0   # <uN as Default>::default() (e.g. a derived Default for the metadata)
+                    elif e[0] == "const" and e[3] is not None:
+                        val = e[3]
+                if val is None:
                     ctx.undecided("R01.5", f, "writer=initialiser", b.line_at(loc), "initial version is not a constant")
+                elif val == sentinel or val <= 0:
+                    ctx.violated("R01.5", f, "writer=initialiser", b.line_at(loc),
+                                 "`%s` builds the metadata with version %d, the closed sentinel: an observable made this way is born closed - its subscribers report the end of the stream while the owner is alive" % (f.path, val))
+                    init = val if init is None else init
+                else:
+                    init = val
+                    ctx.holds("R01.5", f, "writer=initialiser", b.line_at(loc), "version initialised with constant %d" % val)
     # writers
     for f in F.find(crate=EY):
         b = f.built
